@@ -5,7 +5,7 @@ PROPERTY = 'C03'
 THEOREMS = ['Sched.no_deadlock', 'Sched.clean_exit', 'Sched.raises_iff_cyclic', 'Sched.InvC_step', 'Sched.InvC_init', 'Sched.Inv_reach', 'Sched.bounded_executions', 'Sched.always_terminates', 'Sched.mu_decreases', 'Sched.InvG_step']
 BUDGET = {'quick': 250, 'thorough': 6000}
 TIME_LIMIT = {'quick': 55, 'thorough': 700}
-RULE = ('cyclic graphs (cycle made of hard edges, of soft edges, or closed by one soft edge), stale FAILED/SKIPPED/PENDING entries, repeated calls on the same backend (40% with another graph), all outcome kinds including SystemExit and non-final statuses; 2%: schedulers created without a backend whose calls overlap (nested / concurrent), real threads in a child process' + '; the real QueueScheduling backend runs under the controlled scheduler; non-trivial = '
+RULE = ('cyclic graphs (cycle made of hard edges, of soft edges, or closed by one soft edge), stale FAILED/SKIPPED/PENDING entries, repeated calls on the same backend (40% with another graph), all outcome kinds including SystemExit and non-final statuses; 2%: schedulers created without a backend whose calls overlap (nested / concurrent), real threads in a child process; 2%: a worker thread that cannot be started (Thread.start raises at the k-th worker), real threads in a child process, the same backend used again' + '; the real QueueScheduling backend runs under the controlled scheduler; non-trivial = '
         '>= 3 tasks with >= 2 edges on >= 2 workers, or a special feature (cycle, stale entries, same backend, lost '
         'entries, several rounds); distinct = case hash')
 CORRESPONDS = sc.CORRESPONDS
@@ -23,7 +23,64 @@ def gen(rng, tier, run):
         # own, or two threads schedule at the same time.  Real threads in a child process, 30 s of wall-clock time.
         return {'overlap': {'mode': rng.choice(['nested', 'nested', 'concurrent']), 'inner': rng.randrange(1, 4),
                             'outer': rng.randrange(1, 4), 'fail': rng.random() < 0.3}}
+    if rng.random() < 0.02:
+        # a worker thread that cannot be started (RuntimeError: can't start new thread) after `at` workers were started
+        workers = rng.randrange(1, 6)
+        return {'startfail': {'workers': workers, 'at': rng.randrange(0, workers), 'tasks': rng.randrange(1, 4),
+                              'again': rng.random() < 0.5}}
     return sc.gen(rng, tier, 'C03')
+
+
+STARTFAIL_SCRIPT = r'''
+import json, sys, threading, warnings
+warnings.simplefilter('ignore')
+import logging
+logging.disable(logging.CRITICAL)
+from valjean.cosette.depgraph import DepGraph
+from valjean.cosette.pythontask import PythonTask
+from valjean.cosette.scheduler import Scheduler
+from valjean.cosette.task import TaskStatus
+from valjean.cosette.backends.queue import QueueScheduling
+spec = json.loads(sys.argv[1])
+orig_start = threading.Thread.start
+count = [0]
+armed = [True]
+def start(self):
+    if armed[0] and isinstance(self, QueueScheduling.WorkerThread):
+        count[0] += 1
+        if count[0] == spec['at'] + 1:
+            raise RuntimeError("can't start new thread")
+    return orig_start(self)
+threading.Thread.start = start
+
+def graph():
+    tasks = [PythonTask(f't{i}', (lambda i=i: ({f't{i}': {'result': i}}, TaskStatus.DONE))) for i in range(spec['tasks'])]
+    g = DepGraph()
+    for t in tasks:
+        g.add_node(t)
+    for a, b in zip(tasks[1:], tasks):
+        g.add_dependency(a, on=b)
+    return g
+
+out = {}
+backend = QueueScheduling(n_workers=spec['workers'])
+try:
+    Scheduler(hard_graph=graph(), backend=backend).schedule()
+    out['first'] = 'returned'
+except RuntimeError as err:
+    out['first'] = 'raised'
+except BaseException as err:
+    out['first'] = 'other:' + type(err).__name__
+out['threads'] = threading.active_count()
+out['qsize'] = backend.queue.qsize()
+out['unfinished'] = backend.queue.unfinished_tasks
+if spec['again']:
+    armed[0] = False
+    env = Scheduler(hard_graph=graph(), backend=backend).schedule()
+    out['again'] = sorted((k, int(v['status'])) for k, v in env.items())
+    out['threads2'] = threading.active_count()
+print('RESULT ' + json.dumps(out))
+'''
 
 
 OVERLAP_SCRIPT = r'''
@@ -82,25 +139,29 @@ print('RESULT ' + json.dumps(out))
 '''
 
 
-def run_overlap(case):
+def run_child(case, kind, script):
     import json
     import os
     import subprocess
     import sys
     env = dict(os.environ, PYTHONPATH=os.environ.get('VERIF_REPO', '/repo'))
     try:
-        proc = subprocess.run([sys.executable, '-c', OVERLAP_SCRIPT, json.dumps(case['overlap'])], env=env, timeout=30,
+        proc = subprocess.run([sys.executable, '-c', script, json.dumps(case[kind])], env=env, timeout=30,
                               stdout=subprocess.PIPE, stderr=subprocess.PIPE, text=True)
     except subprocess.TimeoutExpired:
-        return {'overlap': 'timeout'}
+        return {kind: 'timeout'}
     line = next((ln for ln in proc.stdout.splitlines() if ln.startswith('RESULT ')), None)
     if line is None:
-        return {'overlap': 'error', 'stderr': proc.stderr[-400:]}
-    return {'overlap': json.loads(line[7:])}
+        return {kind: 'error', 'stderr': proc.stderr[-400:]}
+    return {kind: json.loads(line[7:])}
+
+
+def run_overlap(case):
+    return run_child(case, 'overlap', OVERLAP_SCRIPT)
 
 
 def shrink(case):
-    if 'overlap' in case:
+    if 'overlap' in case or 'startfail' in case:
         return iter(())
     return sc.shrink(case)
 
@@ -108,11 +169,13 @@ def shrink(case):
 def run_impl(case, run):
     if 'overlap' in case:
         return run_overlap(case)
+    if 'startfail' in case:
+        return run_child(case, 'startfail', STARTFAIL_SCRIPT)
     return sc.run_impl(case, run)
 
 
 def run_model(case, driver, run):
-    if 'overlap' in case:
+    if 'overlap' in case or 'startfail' in case:
         return None
     return sc.run_model(case, driver, run)
 
@@ -137,12 +200,31 @@ def oracle(case, impl, run):
         if obs.get('threads') != 1:
             fails.append(('clean_exit', f"overlapping calls ({spec}): {obs.get('threads')} threads alive after both calls came back"))
         return fails
+    if 'startfail' in case:
+        spec, obs = case['startfail'], impl['startfail']
+        run.count('startfail')
+        if obs == 'timeout':
+            return [('no_deadlock', f'a worker thread that cannot be started ({spec}): not back after 30 s')]
+        if obs == 'error':
+            return [('clean_exit', f"a worker thread that cannot be started ({spec}): the child process failed: {impl.get('stderr')}")]
+        fails = []
+        if obs.get('first') != 'raised':
+            fails.append(('clean_exit', f"worker {spec['at'] + 1} of {spec['workers']} cannot be started: schedule() {obs.get('first')}"))
+        if obs.get('threads') != 1 or obs.get('threads2', 1) != 1:
+            fails.append(('clean_exit', f"worker {spec['at'] + 1} of {spec['workers']} cannot be started: {obs.get('threads')} threads "
+                          f"alive after schedule() came back ({obs.get('threads2')} after the next call)"))
+        if obs.get('qsize') != 0 or obs.get('unfinished') != 0:
+            fails.append(('clean_exit', f"worker {spec['at'] + 1} of {spec['workers']} cannot be started: the work queue holds "
+                          f"{obs.get('qsize')} items ({obs.get('unfinished')} unfinished) after schedule() came back"))
+        if spec['again'] and obs.get('again') != [[f't{i}', 3] for i in range(spec['tasks'])]:
+            fails.append(('clean_exit', f"next call on the same backend after a failed worker start: statuses {obs.get('again')}"))
+        return fails
     sc.histogram(case, impl, run)
     return sc.oracle_c03(case, impl, run)[:6]
 
 
 def nontrivial(case, impl):
-    if 'overlap' in case:
+    if 'overlap' in case or 'startfail' in case:
         return case
     return sc.nontrivial_key(case, impl)
 
